@@ -209,7 +209,7 @@ func runC04(c *Ctx) {
 	c.isValidModelMultihashContract("C02.G3")
 	// … and "for any well-formed chain the parser reports": it reports at all only for what it accepts — the parser's
 	// acceptance conditions (C07: every configured key algorithm, every configured hash algorithm) are part of this check
-	runC07(c)
+	c.apart(runC07)
 	getC := c.Fn("commitment", "GetCommitment")
 	getR := c.Fn("commitment", "GetRevealValue")
 	fromR := c.Fn("commitment", "GetCommitmentFromRevealValue")
